@@ -111,7 +111,19 @@ func (fs *FS) OpenReader(dir string, name string) (types.ReadableFile, error) {
 // about the well-formedness of the file, it may be empty, the wrong size or
 // corrupt in arbitrary ways.
 func (fs *FS) OpenWriter(dir string, name string) (types.WritableFile, error) {
-	return os.OpenFile(filepath.Join(dir, name), os.O_RDWR, os.FileMode(0644))
+	f, err := os.OpenFile(filepath.Join(dir, name), os.O_RDWR, os.FileMode(0644))
+	if err != nil {
+		return nil, err
+	}
+	// We can't know whether this file's directory entry ever became durable:
+	// the process that created it may have died before its first Sync. Treat it
+	// like a newly created file so the first Sync also fsyncs the parent dir.
+	fi := &File{
+		new:  0,
+		dir:  dir,
+		File: *f,
+	}
+	return fi, nil
 }
 
 func syncDir(dir string) error {
